@@ -231,6 +231,7 @@ func specJudge(root string, c GCase, rep *CaseReport) []Judgement {
 			switch judgeProp {
 			case "C05":
 				judgeCover(w, m.Name, mem, lines, add)
+				judgeWarnings(rep, root, m, lines, add)
 			case "C06":
 				judgeNotations(w, m.Name, srcTy, dstTy, mem, lines, ns[m.Name], caseOffAnywhere, add)
 			case "C04":
@@ -316,6 +317,54 @@ func judgeCover(w tyWalker, fn string, mem []member, lines []BodyLine, add func(
 }
 
 func itoa(n int) string { return strconv.Itoa(n) }
+
+// judgeWarnings: every `// no match:` line is also reported on stderr, at the position of the method or of one of
+// its notation lines
+func judgeWarnings(rep *CaseReport, root string, m jMethodDecl, lines []BodyLine, add func(string, string)) {
+	allowed := map[string]bool{m.Pos: true}
+	for _, enc := range m.DocChain {
+		node := enc / 8
+		if enc%8 != 4 {
+			continue
+		}
+		if node < len(rep.Facts.File.DocOf) && rep.Facts.File.DocOf[node] != nil {
+			for _, cm := range rep.Facts.File.Groups[*rep.Facts.File.DocOf[node]] {
+				allowed[cm.Pos] = true
+			}
+		}
+		break
+	}
+	stderr := canonStderr(rep.CLI.Stderr, root)
+	for _, l := range lines {
+		if l.Kind != "nomatch" {
+			continue
+		}
+		countRule("C05:no-match-has-positioned-warning")
+		found, positioned := false, false
+		for _, e := range stderr {
+			i := strings.Index(e, ": no assignment for ")
+			if i < 0 {
+				continue
+			}
+			rest := e[i+len(": no assignment for "):]
+			j := strings.Index(rest, " [")
+			if j < 0 {
+				continue
+			}
+			if _, p := rootAndPath(rest[:j]); p == l.Path {
+				found = true
+				if allowed[e[:i]] {
+					positioned = true
+				}
+			}
+		}
+		if !found {
+			add("C05|no-match-without-warning", m.Name+": `"+l.Text+"` has no `no assignment for` warning on stderr")
+		} else if !positioned {
+			add("C05|warning-position", m.Name+": the warning for `"+l.Text+"` does not carry the position of the method or of one of its notations")
+		}
+	}
+}
 
 // ---- C06 ----------------------------------------------------------------------------------------
 
